@@ -1011,6 +1011,20 @@ fn typeface_to_word_mode(braille: &str) -> String {
     while i < chars.len() {
         let ch = chars[i];
         if HAS_TYPEFACE.is_match(ch.to_string().as_str()) {
+            if !is_in_front_of_letter_or_digit(&chars[i+1..]) {
+                // A typeface indicator that does not belong to a letter/digit (e.g., the char after it has no braille translation and
+                // was passed through): it can't start, continue or end a typeface word, so a word for this typeface ends in front of it.
+                // Without this, the end of the word was noted here and the terminator written after the first digit of a later number.
+                if word_mode.contains(&ch) {
+                    word_mode.retain(|&item| item!=ch);
+                    result.push(ch);
+                    result.push('e');
+                }
+                result.push(ch);
+                result.push('s');     // typeface single char indicator
+                i += 1;
+                continue;
+            }
             let i_next_char_target = find_next_char(&chars[i+1..], ch);
             if word_mode.contains(&ch) {
                 if i_next_char_target.is_none() {
@@ -1050,6 +1064,18 @@ fn typeface_to_word_mode(braille: &str) -> String {
     }
     return result;
 
+}
+
+/// True if `chars` (what follows a typeface indicator) leads to a letter ('L') or digit ('N') through indicators only
+fn is_in_front_of_letter_or_digit(chars: &[char]) -> bool {
+    for &ch in chars {
+        if ch == 'L' || ch == 'N' {
+            return true;
+        } else if !(LETTER_PREFIXES.contains(&ch) || ch == 'G') {
+            return false;
+        }
+    }
+    return false;
 }
 
 fn capitals_to_word_mode(braille: &str) -> String {
